@@ -143,7 +143,7 @@ const LIT_DQ: &[&str] = &["a", "b", "\u{e9}", ":", "-", "*", "?", " ", " ", "\t"
 const BS_WORD: &[&str] = &[" ", ":", "a", "*", "?", "\\", "$", "\"", "'", "\t"];
 const BS_DQ: &[&str] = &["\\", "$", "\"", "a", " ", "*", ":"];
 const SQ_CHARS: &[&str] = &["a", "b", " ", " ", ":", "*", "?", "$", "\\", "\"", "\t", "\u{e9}"];
-const PARAMS: &[&str] = &["x", "x", "y", "y", "1", "2", "@", "@", "*", "*", "#", "?"];
+const PARAMS: &[&str] = &["x", "x", "y", "y", "1", "2", "@", "@", "*", "*", "#", "?", "IFS"];
 
 fn pick<'a>(rng: &mut StdRng, xs: &[&'a str]) -> &'a str {
     xs[rng.gen_range(0..xs.len())]
@@ -210,6 +210,12 @@ fn random_param(rng: &mut StdRng, ctx: Ctx, budget: &mut usize, depth: usize) ->
     // modifiers on @ * (and most on #) are unspecified by POSIX: not generated
     if matches!(p, "@" | "*") {
         return plain;
+    }
+    if p == "IFS" && r < 90 {
+        // the word assigns IFS itself (fires when IFS is unset, or empty for `:=`)
+        let n = rng.gen_range(1..=2);
+        let w: Vec<Value> = (0..n).map(|_| json!({"t": "lit", "c": pick(rng, &[":", ":", " ", "a", "-", "\u{e9}"])})).collect();
+        return json!({"t": "par", "p": p, "m": "sw", "colon": rng.gen_bool(0.5), "act": "=", "w": w});
     }
     if r < 55 {
         return json!({"t": "par", "p": p, "m": "len"});
